@@ -62,6 +62,10 @@ def close(a, b, rtol):
         return bool(np.all((np.abs(a - b) <= rtol * np.maximum(np.abs(a), np.abs(b)) + 1e-300) | (np.isnan(a) & np.isnan(b)) | (a == b)))
 
 
+class LayoutDependence(Exception):
+    pass
+
+
 class Cmp:
     """Compare one compiled call with one interpreted call."""
 
@@ -83,6 +87,11 @@ class Cmp:
         try:
             c = compiled()
             c_exc = None
+        except LayoutDependence as e:
+            self.p.count(sub, evaluations=1)
+            self.p.violation(sub, {"program": self.prog, "input": desc, "what": "layout"}, {"kind": "tv", "program": self.prog, "input": desc},
+                             f"{self.prog}: the compiled kernel depends on the memory layout of its input ({e}) for {desc}; the source under NumPy semantics does not")
+            return
         except Exception as e:
             c_exc = e
         self.p.count(sub, evaluations=1, disagreements_checked=1)
@@ -119,12 +128,31 @@ class Cmp:
                 return
 
 
+def strided(a):
+    """A view with the same values as the 1-d array `a` but a non-unit stride (NumPy semantics are layout
+    independent; a kernel compiled for a contiguous layout only is not)."""
+    if not isinstance(a, np.ndarray) or a.ndim != 1 or a.size < 2:
+        return a
+    buf = np.empty(a.size * 3, dtype=a.dtype)
+    buf[...] = np.asarray(-77).astype(a.dtype) if a.dtype.kind != "b" else False
+    v = buf[1::3][: a.size]
+    v[...] = a
+    return v
+
+
 def gu_pair(obj, fi, core_args, out_specs):
     """Compiled gufunc call on one word vs the interpreted kernel body writing into fresh outputs
     (scalar gufunc outputs are 1-element arrays inside the kernel body)."""
     def compiled():
         r = obj(*core_args)
-        return tuple(np.asarray(x) for x in r) if isinstance(r, tuple) else np.asarray(r)
+        r = tuple(np.asarray(x) for x in r) if isinstance(r, tuple) else np.asarray(r)
+        r2 = obj(*[strided(a) for a in core_args])
+        r2 = tuple(np.asarray(x) for x in r2) if isinstance(r2, tuple) else np.asarray(r2)
+        same = all(np.array_equal(a, b, equal_nan=True) for a, b in zip(r if isinstance(r, tuple) else (r,), r2 if isinstance(r2, tuple) else (r2,)))
+        if not same:
+            raise LayoutDependence(f"strided input gives {[np.asarray(x).tolist() for x in (r2 if isinstance(r2, tuple) else (r2,))]}, "
+                                   f"contiguous input gives {[np.asarray(x).tolist() for x in (r if isinstance(r, tuple) else (r,))]}")
+        return r
 
     def interpreted_():
         outs = [np.zeros(s, dtype=d) for s, d in out_specs]
@@ -277,7 +305,7 @@ def generators(thorough):
         for n in (1, 2, 5, 9):
             for x in sse.word_indices(2, n)[:: S].astype("uint8"):
                 od = np.asarray(obj(np.ones(2, "uint8"))).dtype
-                C.run(lambda: np.asarray(obj(x)), lambda: _first(fi, x, od), f"x={x.tolist()}")
+                C.run(lambda: both_layouts(obj, (x,)), lambda: _first(fi, x, od), f"x={x.tolist()}")
     G["lroo.lroo"] = lroo
 
     def tint(obj, fi, C):
@@ -291,7 +319,7 @@ def generators(thorough):
                 for x in X[:: 2 * S].astype("int16"):
                     t = np.asarray(tmpl, dtype=np.float64)
                     to = np.zeros(nl, "u1")
-                    C.run(lambda: np.asarray(obj(x, t, labels, to)), lambda: _out(fi, (x, t, labels, to), (nl,), "int16"),
+                    C.run(lambda: both_layouts(obj, (x, t, labels, to)), lambda: _out(fi, (x, t, labels, to), (nl,), "int16"),
                           f"x={x.tolist()} template={list(tmpl)} labels={labels.tolist()}")
     G["tinterpolate.tinterpolate"] = tint
 
@@ -351,7 +379,7 @@ def generators(thorough):
         for x in X6:
             for dt in ("int16", "float32"):
                 xx = x.astype(dt)
-                C.run(lambda: np.asarray(obj(xx, g, 2, -9999, ci)), lambda: _out(fi, (xx, g, 2, -9999, ci), (6,), "int16"), f"x={xx.tolist()} {dt}")
+                C.run(lambda: both_layouts(obj, (xx, g, 2, -9999, ci)), lambda: _out(fi, (xx, g, 2, -9999, ci), (6,), "int16"), f"x={xx.tolist()} {dt}")
     G["stats.gammastd_grp"] = gammastd_grp
 
     def mk_simple(name, call):
@@ -392,7 +420,7 @@ def generators(thorough):
                 for dt in ("int16", "float32"):
                     x = (np.asarray(pat) * 7 - 3).astype(dt)
                     args = (x, -9999.0) if nd else (x,)
-                    C.run(lambda: tuple(np.asarray(v) for v in obj(*args)), lambda: _outs4(fi, args), f"x={x.tolist()} {dt}", rtol=1e-6)
+                    C.run(lambda: both_layouts(obj, args), lambda: _outs4(fi, args), f"x={x.tolist()} {dt}", rtol=1e-6)
             if nd:
                 x = np.full(4, -9999, "int16")
                 C.run(lambda: tuple(np.asarray(v) for v in obj(x, -9999.0)), lambda: _outs4(fi, (x, -9999.0)), "all nodata")
@@ -409,7 +437,7 @@ def generators(thorough):
             for x in M5:
                 for dt in ("float32", "int16", "int32", "int64"):
                     xx = x.astype(dt)
-                    C.run(lambda: np.asarray(obj(xx, g, k, -9999)), lambda: _out(fi, (xx, g, k, -9999), (5,), "float32"), f"x={xx.tolist()} {dt} labels={list(lab)}", rtol=1e-6)
+                    C.run(lambda: both_layouts(obj, (xx, g, k, -9999)), lambda: _out(fi, (xx, g, k, -9999), (5,), "float32"), f"x={xx.tolist()} {dt} labels={list(lab)}", rtol=1e-6)
     G["stats.mean_grp"] = mean_grp
 
     def rolling(obj, fi, C):
@@ -417,9 +445,20 @@ def generators(thorough):
             for w in (1, 2, 5):
                 for dt in ("float32", "int16", "int64"):
                     xx = x.astype(dt)
-                    C.run(lambda: np.asarray(obj(xx, w, -9999)), lambda: _out(fi, (xx, w, -9999), (5,), "float32"), f"x={xx.tolist()} {dt} window={w}", rtol=1e-6)
+                    C.run(lambda: both_layouts(obj, (xx, w, -9999)), lambda: _out(fi, (xx, w, -9999), (5,), "float32"), f"x={xx.tolist()} {dt} window={w}", rtol=1e-6)
     G["stats.rolling_sum"] = rolling
     return G
+
+
+def both_layouts(obj, args):
+    """Compiled gufunc on contiguous and on strided core arrays: identical results required."""
+    r = obj(*args)
+    r2 = obj(*[strided(a) for a in args])
+    t1 = r if isinstance(r, tuple) else (r,)
+    t2 = r2 if isinstance(r2, tuple) else (r2,)
+    if not all(np.array_equal(np.asarray(a), np.asarray(b), equal_nan=True) for a, b in zip(t1, t2)):
+        raise LayoutDependence(f"strided input gives {[np.asarray(x).tolist() for x in t2]}, contiguous input gives {[np.asarray(x).tolist() for x in t1]}")
+    return tuple(np.asarray(v) for v in r) if isinstance(r, tuple) else np.asarray(r)
 
 
 def _out(fi, args, shape, dtype):
